@@ -188,7 +188,9 @@ func (g *mgen) doc() string {
 	open := []string{}
 	n := 1 + g.r.Intn(9)
 	if g.r.Intn(6) == 0 {
-		b.WriteString([]string{"Name: ", "Ém: ", "A B:", "  Sp: ", "N:   "}[g.r.Intn(5)])
+		// the implicit character prefix ends after the colon and the blanks of the regexp class \s that
+		// follow it - not after other Unicode spaces
+		b.WriteString([]string{"Name: ", "Ém: ", "A B:", "  Sp: ", "N:   ", "Mae:\u00a0", "名前:\u3000", "A:\v", "N: \u2003x", "B:\t\u0085", "C:\u2028"}[g.r.Intn(11)])
 	}
 	for i := 0; i < n; i++ {
 		switch x := g.r.Intn(20); {
